@@ -26,6 +26,8 @@ pub fn subject() -> File {
     top.opacity = 180;
     fr.push(Body::Layer(top));
     fr.push(Body::Layer(Layer::tilemap("map", 2)));
+    // a fourth layer without cels that repeats the name of layer 0 (lookups by name return the lowest id)
+    fr.push(Body::Layer(Layer::image("base")));
     fr.push(tags(vec![Tag::new("a", 0, 1, 0), Tag::new("b", 1, 1, 2)]));
     fr.push(Body::UserData(UserData::text("tag-a")));
     fr.push(slice("s", 3, vec![key(0, 0, 0, 2, 2)]));
@@ -58,7 +60,7 @@ pub fn panics(i: usize) -> bool {
     (14..=17).contains(&i)
 }
 
-pub const CALLS: [Call; 19] = [
+pub const CALLS: [Call; 20] = [
     ("frame(0).image", |f| h_img(f.frame(0).image())),
     ("frame(1).image", |f| h_img(f.frame(1).image())),
     ("cel(0,1).image", |f| h_img(f.cel(0, 1).image())),
@@ -90,5 +92,6 @@ pub const CALLS: [Call; 19] = [
     ("frame(99).image [out of range]", |f| caught(|| h_img(f.frame(99).image()))),
     ("cel(99,99).image [out of range]", |f| caught(|| h_img(f.cel(99, 99).image()))),
     ("cel(0,0).image", |f| h_img(f.cel(0, 0).image())),
+    ("layer_by_name(duplicate name)", |f| hash64(&(f.layer_by_name("base").map(|l| l.id()), f.tag_by_name("a").map(|t| t.from_frame())))),
 ];
 
